@@ -946,6 +946,11 @@ def gen_C14(tier, rng):
     for _ in range(1500 if tier == "quick" else 20000):
         e = gen.rand_tree(rng, rng.randint(2, 7), SAFE_NAMES, max_arity=4, empties=False)
         add(e, no_empty(e)); dist["random_deep"] += 1
+    # identifiers that begin like a keyword or a constant, consist of digits only, or are long
+    more_names = ["1a", "0x", "10", "2", "t1", "f0", "v2", "not1", "true1", "andy", "orb", "_", "-", "x-y", "A", "Z9", "abcdefghij_klmnop", "false_", "tt", "0_0"]
+    for _ in range(600 if tier == "quick" else 8000):
+        e = gen.rand_tree(rng, rng.randint(1, 5), rng.sample(more_names, 4), max_arity=3, empties=False)
+        add(e, no_empty(e)); dist["keyword_like_names"] += 1
     bad_names = ["T", "v", "and", "a b", "", "}", "x)", "é", "f", "1", "falsE", "falſe", "a&b", "oR"]
     for _ in range(400 if tier == "quick" else 4000):
         e = gen.rand_tree(rng, rng.randint(1, 3), SAFE_NAMES[:2] + bad_names, max_arity=3)
@@ -960,7 +965,7 @@ def gen_C14(tier, rng):
             nt = nt or printable
         cases.append(c.done(c.id, nt))
     return {"cases": cases, "exhaustive": True, "dist": dict(dist),
-            "rule": "every expression tree with <= %d nodes over the names {a, b1, x_y, -k, nota, T1} and constants, n-ary arities 0..3, a sample of the next size and random deep trees: print, tokenize, parse back; the text and the parsed tree are compared with the model, and for printable trees (non-empty And/Or) the parsed function and variables with the original's, for proper trees (arity >= 2) the parsed tree with the original tree; a further stream with names that are keywords, contain spaces or symbols is compared with the model only (outside the property's hypothesis); %d trees; non-trivial = printable; distinct = tree" % (upto, len(pending))}
+            "rule": "every expression tree with <= %d nodes over the names {a, b1, x_y, -k, nota, T1} and constants, n-ary arities 0..3, a sample of the next size and random deep trees, further trees over identifiers that begin like keywords / constants or consist of digits: print, tokenize, parse back; the text and the parsed tree are compared with the model, and for printable trees (non-empty And/Or) the parsed function and variables with the original's, for proper trees (arity >= 2) the parsed tree with the original tree; a further stream with names that are keywords, contain spaces or symbols is compared with the model only (outside the property's hypothesis); %d trees; non-trivial = printable; distinct = tree" % (upto, len(pending))}
 
 
 GENERATORS.update({"C12": gen_C12, "C13": gen_C13, "C14": gen_C14})
@@ -1043,6 +1048,16 @@ def gen_C16(tier, rng):
         names = rng.sample(["a", "b", "c"], 3) if rng.random() < .7 else rng.sample(["x_2", "x_10", "x_1"], 3)
         rows = [list(p) + [o] for p, o in zip(pts, outs)]; rng.shuffle(rows)
         add(csv_text(names, spelled(rows, rng.choice(SCHEMES)), rng.random() < .6, last_eol=rng.random() < .5), "three_vars_sampled")
+    # wide files (5-9 input columns): header in a random column order, rows shuffled; and the same with one fault
+    for nvw in ([5, 6, 7, 8, 9] if tier == "quick" else [5, 6, 7, 8, 9, 10, 11]):
+        ptsw = list(itertools.product([0, 1], repeat=nvw))
+        namesw = ["v%d" % i for i in range(nvw)]; rng.shuffle(namesw)
+        rowsw = [list(p) + [1 if (p[0] and not p[-1]) or (p[nvw // 2] and p[1]) else 0] for p in ptsw]; rng.shuffle(rowsw)
+        add(csv_text(namesw, spelled(rowsw, rng.choice(SCHEMES)), True), "wide_header_%d" % nvw)
+        add(csv_text([], spelled(rowsw, SCHEMES[1]), False), "wide_headerless_%d" % nvw)
+        dup = list(rowsw); dup[rng.randrange(len(dup))] = dup[rng.randrange(len(dup))]      # a repeated combination (or unchanged)
+        add(csv_text(namesw, spelled(dup, SCHEMES[0]), True), "wide_repeated_%d" % nvw)
+        add(csv_text(namesw, spelled(rowsw[:-1], SCHEMES[0]), True), "wide_missing_%d" % nvw)
     pts4 = list(itertools.product([0, 1], repeat=4))
     rows = [list(p) + [rng.randint(0, 1)] for p in pts4]; rng.shuffle(rows)
     add(csv_text([], spelled(rows, SCHEMES[0]), False), "headerless_4")
@@ -1107,6 +1122,15 @@ def gen_C17(tier, rng):
                 c.q("csvdef %d" % t)
                 dist["vars%d_names%d" % (nv, k)] += 1
                 cases.append(c.done("%d/%s/%d" % (nv, tv, k), True))
+    # wide tables (5-10 inputs, thorough 12): more than 64 / 256 / 1024 data lines
+    for nv in ([5, 6, 7, 8, 9, 10] if tier == "quick" else [5, 6, 7, 8, 9, 10, 11, 12]):
+        for rep in range(1 if tier == "quick" else 3):
+            c = Case("c17_w%d_%d" % (nv, rep))
+            r0 = c.r("expr " + pe(sparse_wide(rng, nv, cnf=(rep % 2 == 1)))); t = c.r("conv T %d" % r0)
+            c.q("csvdef %d" % t)
+            for _ in range(2): c.q("csvout %d %s %s" % (t, rng.choice(FMT), rng.choice(FMT)))
+            dist["wide%d" % nv] += 1
+            cases.append(c.done("wide%d/%d" % (nv, rep), True))
     c = Case("c17_empty"); t = c.r("csvin str -"); c.q("csvout %d W K" % t); c.q("csvdef %d" % t); c.q("obs %d" % t)
     cases.append(c.done("empty", True)); dist["empty_table"] += 1
     for ns in (["a,b"], ['a"b'], ['"ab"'], ["a\nb"], [" a "], ["﻿a"], ["0"], ["1", "true"]):
@@ -1116,7 +1140,7 @@ def gen_C17(tier, rng):
             dist["unsafe_names_modelonly"] += 1
             cases.append(c.done("unsafe/%s/%s" % (ns, tv), False))
     return {"cases": cases, "exhaustive": tier != "quick", "dist": dict(dist),
-            "rule": "every truth function of <= %d variables (3+ variables: every %s) over six name sets (ASCII, x_i with x_10 < x_2, non-ASCII, long, and names equal or close to the export's own column name `result`) x all 16 input/output Boolean formattings + the default to_csv: exported text compared byte for byte with the model, re-import compared with the table itself (C17_round_trip) ; the empty table; names that are not csv-safe (comma, quote, line break, BOM, Boolean spelling) compared with the model only; non-trivial = csv-safe names; distinct = (function, name set)" % (maxv, "fifth" if tier == "quick" else "third")}
+            "rule": "every truth function of <= %d variables (3+ variables: every %s) over six name sets (ASCII, x_i with x_10 < x_2, non-ASCII, long, and names equal or close to the export's own column name `result`) x all 16 input/output Boolean formattings + the default to_csv: exported text compared byte for byte with the model, re-import compared with the table itself (C17_round_trip) ; sparse functions of 5-10 (12) inputs (hundreds to thousands of data lines); the empty table; names that are not csv-safe (comma, quote, line break, BOM, Boolean spelling) compared with the model only; non-trivial = csv-safe names; distinct = (function, name set)" % (maxv, "fifth" if tier == "quick" else "third")}
 
 
 def gen_C18(tier, rng):
@@ -1147,11 +1171,19 @@ def gen_C18(tier, rng):
             c.q("display %d" % t)
             dist["unclean_names_modelonly"] += 1
             cases.append(c.done("unclean/%s/%s" % (ns, tv), False))
+    # wide tables (5-8 inputs, thorough 10): hundreds of rows
+    for nv in ([5, 6, 7, 8] if tier == "quick" else [5, 6, 7, 8, 9, 10]):
+        c = Case("c18_w%d" % nv)
+        r0 = c.r("expr " + pe(sparse_wide(rng, nv))); t = c.r("conv T %d" % r0)
+        for st in rng.sample("AMDE", 2): c.q("render %d %s %s %s" % (t, st, rng.choice(FMT), rng.choice(FMT)))
+        c.q("display %d" % t)
+        dist["wide%d" % nv] += 1
+        cases.append(c.done("wide%d" % nv, True))
     c = Case("c18_empty"); t = c.r("csvin str -")
     for st in "AMDE": c.q("render %d %s N W" % (t, st))
     c.q("display %d" % t); cases.append(c.done("empty", True)); dist["empty_table"] += 1
     return {"cases": cases, "exhaustive": tier != "quick", "dist": dict(dist),
-            "rule": "every truth function of <= 3 variables over six name sets of differing display widths (ASCII, Latin with diacritics, CJK wide, combining mark, full-width, long, names with - _ +) x 4 styles x 16 Boolean formattings (quick: a quarter of the formattings for 2+ variables, every sixth 3-variable function): rendered text compared byte for byte with the model of tabled; cells read back from the REAL output by an independent splitter compared with header + one formatted row per domain point (the relation); Display = frameless / word / word; names with blanks, line breaks, empty or border glyphs compared with the model only; non-trivial = clean names; distinct = (function, name set)"}
+            "rule": "every truth function of <= 3 variables over six name sets of differing display widths (ASCII, Latin with diacritics, CJK wide, combining mark, full-width, long, names with - _ +) x 4 styles x 16 Boolean formattings (quick: a quarter of the formattings for 2+ variables, every sixth 3-variable function): rendered text compared byte for byte with the model of tabled; cells read back from the REAL output by an independent splitter compared with header + one formatted row per domain point (the relation); Display = frameless / word / word; sparse functions of 5-8 (10) inputs; names with blanks, line breaks, empty or border glyphs compared with the model only; non-trivial = clean names; distinct = (function, name set)"}
 
 
 GENERATORS.update({"C16": gen_C16, "C17": gen_C17, "C18": gen_C18})
@@ -1218,6 +1250,11 @@ def gen_C20(tier, rng):
         for v_ in case_variants(w, False):
             for suf in suffixes:
                 seqs.append([v_ + suf + " & b", v_ + " | a", v_ + suf, v_, "(" + v_ + ")", v_ + suf + " | " + v_])
+    # strings that differ only in blanks / braces / letter case and must not be confused by anything keyed on a normal form
+    twins = [("not a", "nota"), ("a b", "ab"), ("{a b} & c", "{ab} & c"), ("x y | z", "xy | z"), ("a &b", "a&b"), ("! a", "!a"), ("a | B", "a | b"),
+             ("{a}", "a"), ("{true}", "true"), ("(a)", "a"), ("a & b & c", "a & (b & c)"), ("a&b|c", "a&(b|c)"), ("TRUE", "true"), ("{A}", "{a}")]
+    for s1, s2 in twins:
+        seqs.append([s1, s2, s1]); seqs.append([s2, s1, s2])
     rng.shuffle(seqs)
     for k_ in range(0, len(seqs), 6):
         c = Case("c20_p%d" % (k_ // 6))
